@@ -155,6 +155,7 @@ struct JobPlan {
 struct CasePlan {
   std::string profile;
   int escalationDelayUs = 0;  // injected at the EscalationThreadStart hook: the SIGKILL thread starts late
+  bool zeroLaneSuggestion = false;  // the lane queue is created with a lane suggestion of 0; it has to behave like a queue with one lane
   uint64_t seed = 0;
   int index = 0;
   int lanes = 1;  // 0 = serial queue
@@ -1006,6 +1007,7 @@ struct Gen {
     static const int ls[] = {1, 2, 3, 8};
     P.lanes = rng.chance(serialPct, 100) ? 0 : ls[rng.below(4)];
     P.alg = (int)rng.below(2);
+    if (P.lanes == 1 && rng.chance(1, 3)) P.zeroLaneSuggestion = true;
   }
 };
 
@@ -1293,7 +1295,7 @@ static void runCase(const std::string& profile, uint64_t seed, int index, bool t
     basep = c.baseEnvp.data();
   }
   std::unique_ptr<ExecutionQueue> serialHolder;
-  if (P.lanes) c.q = createLaneBasedExecutionQueue(c.del, P.lanes, P.alg ? SchedulerAlgorithm::FIFO : SchedulerAlgorithm::NamePriority, QualityOfService::Normal, basep);
+  if (P.lanes) c.q = createLaneBasedExecutionQueue(c.del, P.zeroLaneSuggestion ? 0 : P.lanes, P.alg ? SchedulerAlgorithm::FIFO : SchedulerAlgorithm::NamePriority, QualityOfService::Normal, basep);
   else { serialHolder = createSerialQueue(c.del, basep); c.q = serialHolder.release(); }
 
   // descriptor exhaustion: plug the holes, then leave exactly fdSlots free slots
